@@ -52,6 +52,14 @@ def descriptions(tier, seed):
             spare = dict(d["protocols"][0], name="spare_dbg")
             d["protocols"].append(spare)
             out.append((d, dict(t, topo="spare-protocol")))
+    # an endpoint coordinate offset written as a mapping: the mapping-key permutations must not change what it means
+    d, t = families.mesh(rng, 2, 2, "XY", False, sides=("W",))
+    if d is not None:
+        d = json.loads(json.dumps(d))
+        for e in d["endpoints"]:
+            if e["name"] == "west":
+                e["xy_id_offset"] = {"x": -1, "y": 0}
+        out.append((d, dict(t, topo="xy-id-offset")))
     # names that extend each other (query lookups by name)
     d, t = families.star(rng, 3, "ID", False, roles=["ms", "s", "m"], shapes=[4, 2, None])
     ren = {"epa": "spm", "epb": "spm_narrow", "epc": "dma"}
@@ -117,7 +125,7 @@ def run(tier, seed, rep, replay=None):
         jobs.append({"yaml_text": ytext, "texts": True, "cwd": "other", "hashseed": 5}); meta.append((i, "cwd"))
         # the same description stored under another file name (a variant name that extends the network's name)
         jobs.append({"yaml_text": ytext, "texts": True, "cfg_name": str(d.get("name", "x")) + "_variant.yml"}); meta.append((i, "config-file-name"))
-        for pk in range(2 if tier == "quick" else 4):
+        for pk in range(3 if tier == "quick" else 5):
             jobs.append({"yaml_text": yamlout.text(d, random.Random(seed * 1000 + i * 10 + pk), permute=True), "texts": True,
                          "hashseed": 11 + pk}); meta.append((i, f"key-permutation-{pk}"))
         jobs.append({"yaml_text": ytext, "texts": True, "args": ["--only-pkg"]}); meta.append((i, "only-pkg"))
